@@ -102,6 +102,10 @@ func (w *tmWorld) add(ctx sdk.Context, s, kind int, m *tmModel, where string) {
 	}
 	w.uniq++
 	data := fmt.Sprintf("d%d", w.uniq)
+	if w.r.Chance("ops", 1, 6) {
+		data = "" // empty payloads are legal (the fixation store uses only those)
+		w.r.Probe("empty_data")
+	}
 	if kind == 0 {
 		w.ts[s].AddTimerByBlockHeight(ctx, expiry, []byte(key), []byte(data))
 	} else {
